@@ -231,7 +231,8 @@ def run_lines(binary, domain, cases, timeout=1200, shards=None):
     chunks = [cases[i::shards] for i in range(shards)]
     procs = []
     for ch in chunks:
-        p = subprocess.Popen([binary, domain], stdin=subprocess.PIPE, stdout=subprocess.PIPE,
+        p = subprocess.Popen(["sh", "-c", 'ulimit -s unlimited 2>/dev/null || ulimit -s 1000000 2>/dev/null; exec "$0" "$1"', binary, domain],
+                             stdin=subprocess.PIPE, stdout=subprocess.PIPE,
                              stderr=subprocess.DEVNULL, text=True, env=ENV)
         procs.append(p)
     import threading
@@ -261,8 +262,8 @@ def run_lines(binary, domain, cases, timeout=1200, shards=None):
             # attribute: run one by one
             for j, c in enumerate(chunks[i]):
                 try:
-                    p = subprocess.run([binary, domain], input=c + "\n", capture_output=True, text=True,
-                                       timeout=120, env=ENV)
+                    p = subprocess.run(["sh", "-c", 'ulimit -s unlimited 2>/dev/null || ulimit -s 1000000 2>/dev/null; exec "$0" "$1"', binary, domain],
+                                       input=c + "\n", capture_output=True, text=True, timeout=120, env=ENV)
                     l = p.stdout.strip().split("\n")[0] if p.returncode == 0 and p.stdout.strip() else "CRASH rc=%d" % p.returncode
                 except subprocess.TimeoutExpired:
                     l = "TIMEOUT"
